@@ -410,6 +410,7 @@ impl<W: WriteColor> Summary<W> {
             path: None,
             start_time: Instant::now(),
             match_count: 0,
+            sink_match_calls: 0,
             binary_byte_offset: None,
             stats,
         }
@@ -447,6 +448,7 @@ impl<W: WriteColor> Summary<W> {
             path: Some(ppath),
             start_time: Instant::now(),
             match_count: 0,
+            sink_match_calls: 0,
             binary_byte_offset: None,
             stats,
         }
@@ -493,6 +495,10 @@ pub struct SummarySink<'p, 's, M: Matcher, W> {
     path: Option<PrinterPath<'p>>,
     start_time: Instant,
     match_count: u64,
+    /// The number of matches reported by the searcher so far. The limit on
+    /// the number of matches is enforced on this, as the other printers do,
+    /// and not on the number of individual matches counted inside of them.
+    sink_match_calls: u64,
     binary_byte_offset: Option<u64>,
     stats: Option<Stats>,
 }
@@ -554,7 +560,7 @@ impl<'p, 's, M: Matcher, W: WriteColor> SummarySink<'p, 's, M, W> {
             None => return false,
             Some(limit) => limit,
         };
-        self.match_count >= limit
+        self.sink_match_calls >= limit
     }
 
     /// If this printer has a file path associated with it, then this will
@@ -677,6 +683,7 @@ impl<'p, 's, M: Matcher, W: WriteColor> Sink for SummarySink<'p, 's, M, W> {
         // In an inverted search, the lines given here are precisely the
         // lines that do not contain a match, so there is nothing to count
         // inside of them: each call reports one (non-)matching line.
+        self.sink_match_calls += 1;
         if is_multi_line && !searcher.invert_match() {
             self.match_count += sink_match_count;
         } else {
@@ -718,6 +725,7 @@ impl<'p, 's, M: Matcher, W: WriteColor> Sink for SummarySink<'p, 's, M, W> {
         self.summary.wtr.borrow_mut().reset_count();
         self.start_time = Instant::now();
         self.match_count = 0;
+        self.sink_match_calls = 0;
         self.binary_byte_offset = None;
         if self.summary.config.max_matches == Some(0) {
             return Ok(false);
